@@ -29,10 +29,15 @@ StreamSites(img) ==
 PoolSites(img) ==
   {[site |-> "poolhdr", kind |-> k] : k \in {"cp1", "cp437", "longbit", "cpmax"}}
   \cup {[site |-> "poolentry", k |-> e, kind |-> k2] : e \in {1, Len(img.pool)}, k2 \in {"len+", "lenmax", "rc0", "rc+", "rcmax", "longescape"}}
+  \* the long form (an escape entry carrying the high half of a 32-bit length): lengths near 2^31 and 2^32,
+  \* as the first entry and after a non-empty one
+  \cup {[site |-> "poolentry", k |-> e, kind |-> k2] : e \in {1, 2}, k2 \in {"long2g", "longmax"}}
 PsSites == {[site |-> "ps", field |-> f, kind |-> k] :
               f \in {"bom", "version", "os", "reserved", "fmtid", "secoff", "size", "count", "propoff", "type", "strlen", "terminator", "cptype", "cpvalue"},
               k \in {"zero", "one", "huge", "unaligned"}}
-OtherSites == {[site |-> "clsid", kind |-> "zero"], [site |-> "clsid", kind |-> "other"]}
+\* the template property of the summary ("arch;languages") as text the library's own setters never write
+TemplateSites == {[site |-> "template", kind |-> k] : k \in {"nosemi", "empty", "onlysemi", "twosemi", "badlang", "gaps"}}
+OtherSites == {[site |-> "clsid", kind |-> "zero"], [site |-> "clsid", kind |-> "other"]} \cup TemplateSites
 
 \* every row of the catalog tables, the first and the last row of the user tables; every column, every kind of damage
 AllCellSites(i, img) ==
